@@ -450,6 +450,7 @@ type UnitSpec struct {
 	Inline   bool
 	Decr     *Clause // recursion measure
 	Calls    map[string][]string
+	Dyn      map[string]*UnitSpec // assumed frame of dynamic callees (function-typed parameters), by name
 	File     string
 	Pkg      string // package path the contract file belongs to ("" for prelude)
 	Opts     map[string]string
@@ -738,6 +739,30 @@ func ParseContracts(path, pkgName, src string) (*ContractFile, error) {
 					return nil, err
 				}
 				curAt.Clauses = append(curAt.Clauses, c)
+			case "dyncall":
+				// dyncall <name> preserves A, B   |   dyncall <name> pure
+				f := strings.Fields(strings.ReplaceAll(rest, ",", " "))
+				if len(f) < 2 {
+					return nil, fmt.Errorf("%s: dyncall needs '<callee> preserves ...|pure'", where)
+				}
+				if cur.Dyn == nil {
+					cur.Dyn = map[string]*UnitSpec{}
+				}
+				ds := &UnitSpec{Name: cur.Name + ":dyncall:" + f[0], Assumed: true, Pkg: cur.Pkg, Loops: map[int]*LoopSpec{}, Opts: map[string]string{}}
+				if f[1] == "pure" {
+					ds.Pure = true
+					ds.ModSet = true
+				} else if f[1] == "preserves" {
+					ds.Preserves = f[2:]
+				} else if f[1] == "modifies" {
+					ds.ModSet = true
+					for _, m := range f[2:] {
+						if m != "none" {
+							ds.Modifies = append(ds.Modifies, m)
+						}
+					}
+				}
+				cur.Dyn[f[0]] = ds
 			case "calls":
 				// calls <value> in {a, b}
 				f := strings.SplitN(rest, " in ", 2)
